@@ -25,7 +25,8 @@ Flags == {0, 1, 2, 5, 6, 9, 10, 17, 18, 26, 42, 8, 16}
 MCFlags == {0, 2, 10, 16}
 MCHandleActs == {"write", "truncate", "read"}
 
-ROCalls == {c \in Calls : c.op # "Archive"} \cup {C("OpenHandle", p, Root, a, f) : p \in Paths, a \in HandleActs, f \in Flags}
+\* (the composite Open(flags)+write+close call is covered here by OpenHandle, which separates the open from the handle call)
+ROCalls == {c \in Calls : c.op \notin {"Archive", "UpdateBatch", "Open"}} \cup {C("OpenHandle", p, Root, a, f) : p \in Paths, a \in HandleActs, f \in Flags}
 
 RORes(c) ==
   IF c.op \in MutatorOps THEN "EPERM"
